@@ -196,6 +196,19 @@ def cases(g):
         return (a, b)
     if kind != 'b' or True:
         yield 'sort.nd.inplace', fsort
+    if kind == 'f':
+        def ffix(np, copy):
+            a = np.array(A)
+            m = np.ma.fix_invalid(a, copy=copy)
+            return (a, m.data, bool(np.any(m.mask)))     # (NumPy collapses an all-False mask to the scalar nomask)
+        yield 'ma.fix_invalid.copy', lambda np: ffix(np, True)
+        yield 'ma.fix_invalid.nocopy', lambda np: ffix(np, False)
+        def fmaview(np):
+            a = np.array(A)
+            m = np.ma.array(a, copy=False)
+            m.data[(0,) * a.ndim] = 7.0
+            return a
+        yield 'ma.array.nocopy.alias', fmaview
     yield 'result_type', lambda np: (np.result_type(np.array(A), np.array(B)).kind, np.result_type(np.array(A), np.array(A)).kind, np.promote_types(np.array(A).dtype, bool).kind)
     if kind in 'fi':
         yield 'isclose', lambda np: np.isclose(np.array(A), B)
